@@ -8954,7 +8954,7 @@ S_<TN_, TA_, EmptyT<TA_>>::wrapUtility(Control& HFSM2_IF_LOG_STATE_METHOD(contro
 	HFSM2_LOG_STATE_METHOD(&Empty::utility,
 						   Method::UTILITY);
 
-	return Utility{};
+	return Utility{1};
 }
 
 #endif
@@ -9191,7 +9191,7 @@ typename S_<TN_, TA_, EmptyT<TA_>>::UP
 S_<TN_, TA_, EmptyT<TA_>>::deepReportChange(Control& control) noexcept {
 	const Parent parent = stateParent(control);
 
-	return {Utility{}, parent.prong};
+	return {Utility{1}, parent.prong};
 }
 
 template <typename TN_, typename TA_>
@@ -9200,7 +9200,7 @@ typename S_<TN_, TA_, EmptyT<TA_>>::UP
 S_<TN_, TA_, EmptyT<TA_>>::deepReportUtilize(Control& control) noexcept {
 	const Parent parent  = stateParent(control);
 
-	return {Utility{}, parent.prong};
+	return {Utility{1}, parent.prong};
 }
 
 template <typename TN_, typename TA_>
@@ -9214,7 +9214,7 @@ template <typename TN_, typename TA_>
 HFSM2_CONSTEXPR(14)
 typename S_<TN_, TA_, EmptyT<TA_>>::Utility
 S_<TN_, TA_, EmptyT<TA_>>::deepReportRandomize(Control& HFSM2_UNUSED(control)) noexcept {
-	return Utility{};
+	return Utility{1};
 }
 
 #endif
